@@ -23,6 +23,11 @@ pub enum Tok {
     /// (decoder side only) the content bytes of a byte string whose head has already been consumed
     Payload(Seq<u8>),
 }
+/// cbor_event's `write_bytes<B: AsRef<[u8]>>`: the argument kinds the library passes
+pub trait BytesLike { spec fn bview(&self) -> Seq<u8>; }
+impl<'a> BytesLike for &'a [u8] { open spec fn bview(&self) -> Seq<u8> { (*self)@ } }
+impl BytesLike for Vec<u8> { open spec fn bview(&self) -> Seq<u8> { self@ } }
+impl<'a> BytesLike for &'a Vec<u8> { open spec fn bview(&self) -> Seq<u8> { (*self)@ } }
 #[verifier::external_body] pub struct Serializer { _p: core::marker::PhantomData<u8> }
 /// the bytes a token sequence denotes (heads as cbor_event writes them: shortest form, cross-checked by Kani)
 pub uninterp spec fn bytes_of_toks(t: Seq<Tok>) -> Seq<u8>;
@@ -40,8 +45,8 @@ impl Serializer {
         ensures r is Ok, final(self).toks() == old(self).toks().push(Tok::NInt(v as int)) { unimplemented!() }
     #[verifier::external_body] pub fn write_tag(&mut self, t: u64) -> (r: Result<(), CborError>)
         ensures r is Ok, final(self).toks() == old(self).toks().push(Tok::Tag(t)) { unimplemented!() }
-    #[verifier::external_body] pub fn write_bytes(&mut self, b: &[u8]) -> (r: Result<(), CborError>)
-        ensures r is Ok, final(self).toks() == old(self).toks().push(Tok::Bytes(b@)) { unimplemented!() }
+    #[verifier::external_body] pub fn write_bytes<B: BytesLike>(&mut self, b: B) -> (r: Result<(), CborError>)
+        ensures r is Ok, final(self).toks() == old(self).toks().push(Tok::Bytes(b.bview())) { unimplemented!() }
     #[verifier::external_body] pub fn write_raw_bytes(&mut self, b: &[u8]) -> (r: Result<(), CborError>)
         ensures r is Ok, final(self).toks() == old(self).toks().push(Tok::Raw(b@)) { unimplemented!() }
     #[verifier::external_body] pub fn write_special(&mut self, s: CBORSpecial) -> (r: Result<(), CborError>)
